@@ -18,14 +18,29 @@ from ..workload import pipeline as wp, stabilizers as ws
 
 PID = "C08"
 ASSUMPTIONS = ["any exception type counts as rejection", "matrices for n>=3 (circuit APIs) and n>=4 are sampled, half of them one edit away from a valid stabilizer"]
-NAMES = ["all", "linear", "star", "cycle", "T", "Q", "ladder", "E", "H", "ALL", "line", "ring", "", "allx", "full", None, 5]
+NAMES = ["all", "linear", "star", "cycle", "T", "Q", "ladder", "E", "H", "ALL", "Linear", "line", "ring", "", "allx", "full", "all ", " all",
+         "t", "q", "e", "h", "Ladder", "cycle6", "star0", "../data/stabilizer6-all", None, 5]
+
+
+def data_dir_names():
+    """Connectivity names that occur in file names of the data directory (stray tables are the natural way
+    for an unadvertised configuration to become servable)."""
+    import os
+    import re
+    from .. import env
+    out = set()
+    for f in os.listdir(os.path.join(env.SRC, "htstabilizer", "data")):
+        m = re.match(r"^(?:stabilizer|mub)\d+-(.+)\.txt$", f)
+        if m:
+            out.add(m.group(1))
+    return sorted(out)
 
 
 def RULE(tier):
     return ("cases = one Pauli set (n operators on n qubits, valid or not) handed to validate / prepare / readout: all 2^8 "
             "matrix pairs x 4 sign vectors for n=2, %s of the 2^18 pairs for n=3 (validate) and %d through the circuit APIs, %d "
             "random / dependent / anticommuting / one-edit-from-valid sets per n=4..6, malformed string lists; plus the grid "
-            "n in 0..8 x 17 connectivity names x 11 entry points; non-trivial = invalid set or non-advertised grid point; "
+            "n in 0..8 x ~30 connectivity names (documented ones, near-misses, every name occurring in the data directory) x 11 entry points; non-trivial = invalid set or non-advertised grid point; "
             "distinct = distinct (n, operators, signs) resp. (entry point, n, name)"
             % (("30,000", 4000, 1000) if tier == "quick" else ("all", 40000, 12000)))
 
@@ -160,8 +175,9 @@ def work_grid(p):
         if n == 0:
             return Stabilizer((np.zeros((0, 0), dtype=np.int8), np.zeros((0, 0), dtype=np.int8)))
         return Stabilizer(["I" * i + "Z" + "I" * (n - 1 - i) for i in range(n)])
+    names = list(NAMES) + [x for x in data_dir_names() if x not in NAMES]
     for n in range(0, 9):
-        for name in NAMES:
+        for name in names:
             adv = (n, name) in oconn.EDGES
             entries = {
                 "get_preparation_circuit": lambda: sc.get_preparation_circuit(zstab(n), name),
@@ -195,7 +211,7 @@ def work_grid(p):
                 if not adv and not rejected:
                     p.violate("grid unsupported-served entry=%s" % ep, "%s serves the non-advertised configuration (%d, %r) and returned %s"
                               % (ep, n, name, type(r).__name__), case)
-    p.sample({"grid": "n=0..8 x %d names x 11 entry points" % len(NAMES), "names": [str(x) for x in NAMES]})
+    p.sample({"grid": "n=0..8 x %d names x 11 entry points" % len(names), "names": [str(x) for x in names]})
 
 
 def work_strings(p, seed):
